@@ -9,6 +9,24 @@ BASE_NOTE = ("Trusted base: Go front end + go/ssa (x/tools v0.29.0), the gosym i
 
 # property -> (level text, level note, design ref)   (only claimed properties)
 CLAIMED = {
+ "C01": ("service.VerifyAPREQ executed symbolically on an AP-REQ whose decoded content is ARBITRARY: crypto.DecryptEncPart is an uninterpreted authenticity predicate over (ciphertext, key, usage), the ASN.1 decoders return any value of their Go types (all field values, 0..2 name components, flags of 0..4 bytes, optional addresses, 0..1 authorization data), the clock and all time fields are symbolic 64-bit instants, the keytab holds symbolic entries, settings (skew, host address requirement, client address, keytab principal override, PAC decoding) symbolic. Asserted both ways: accepted => every RFC 4120 3.2.3 clause holds (ticket authentic under the keytab key selected by realm/kvno/etype/sname or override, now within [start-skew, end+skew], authenticator authentic under the ticket session key with usage 11, cname/crealm equal, ctime within skew, address rules, invalid flag clear, not a replay, PAC verified when enabled); every clause holds => accepted; and the reported identity/expiry are the ticket's sealed values. Time-window boundaries are decided exactly by the solver (no sampling of instants).",
+         BASE_NOTE + "Decrypt/unmarshal/PAC verification are stubs (sets decryptstub, asn1havoc, pacstub, lineartime); their real code is covered under C06 (decrypt rejects tampering) and C19 (PAC); the ASN.1 reflection codec is not executed. Name components <= 2, string lengths per mask. Cipher-level defects (flipped ciphertext bit) appear as 'authentic=false'.", "6 (C01)"),
+ "C02": ("service.Cache (replay cache) run symbolically: sequential forms (exact repeat rejected; different client, instant or service accepted; names differing only in '/' splitting are distinct); EVERY history of k<=4 operations (thorough 5) over {present a1, present a2, clean-up} from the empty cache with the clock advancing by arbitrary symbolic amounts between operations - an authenticator accepted before and still inside the skew window is a replay, a never-presented one is accepted; clean-up drops only entries that can no longer pass the skew check; a client with n tracked authenticators; concurrent forms: 2 goroutines (thorough 3) presenting the same authenticator under EVERY interleaving at lock/atomic granularity - at most one accepted, distinct ones all accepted, concurrent clean-up harmless, with vector-clock data-race detection on every memory access.",
+         BASE_NOTE + "Interleavings are enumerated as schedule decisions of the same symbolic executor (cooperative threads, context switch before every sync operation and shared access); histories beyond k operations, more than 3 goroutines are outside the bound. Go memory-model weak behaviours are represented only through the race detector (a race is reported as a violation).", "6 (C02)"),
+ "C04": ("No input makes a parser panic, hang or allocate out of proportion: every implicit obligation the executor tracks (index, slice bounds, nil dereference, division, type assertion, explicit panic, loop unwinding, allocation > 1 MiB from an n-byte input) is checked on EVERY byte string of the registered lengths for keytab.Unmarshal (n<=14 quick, 22 thorough), ccache Unmarshal v1-4, PAC Unmarshal and the PAC info buffers, gssapi Wrap/MIC token Unmarshal, kadmin Reply/response parsing, asn1tools length helpers, DecryptMessage for all six etypes and every ciphertext length 0..40 (+48,64,80), krb5.conf realm-block lines; and on every DECODED SHAPE (post-ASN.1 struct with empty/short sequences) for AP-REQ verification, GetPACType, GetKeyFromPassword; client.sendTCP with an arbitrary peer-announced length.",
+         BASE_NOTE + "The reflection-driven ASN.1/NDR decoders themselves are not executed (DESIGN 7): their outputs are havoc values of the Go types. 7 ccache reader sites that still panic on truncated files are recorded as known findings (KNOWN_FINDINGS.txt) and printed as KNOWN-FINDING; any other site is a VIOLATION. Inputs longer than the registered lengths are outside the claim.", "6 (C04)"),
+ "C09": ("Reply verification executed symbolically with arbitrary decoded replies: KDCRep.Verify for AS-REP (password and keytab credentials) and the TGS-REP checks accept only when the encrypted part is authentic under the expected key and usage, the nonce equals the request's, cname/crealm and sname/srealm answer the request, times are consistent with the request within skew; on acceptance the key/ticket stored come from the authenticated part. Any KRB-ERROR reply other than those the client is specified to act on surfaces as an error; in the transport layer a KRB-ERROR from a KDC is surfaced as such for every size preference and endpoint behaviour (scripted endpoints).",
+         BASE_NOTE + "Stubs as for C01 (decryptstub, asn1havoc, lineartime, kdcstub, netstub). Bounds: one reply per exchange, names <= 2 components.", "6 (C09)"),
+ "C10": ("Client ticket acquisition against a scripted adversarial KDC: a cached service ticket is returned only while now is inside [start, end] (symbolic instants, boundaries exact), is renewed when renewable and otherwise re-requested; TGS and AS referral chains of length k in {0,1,6..9} terminate within the fixed bound of requests and end with the ticket or an error, never a loop.",
+         BASE_NOTE + "KDC replies are stub outputs (kdcstub/ScriptStub) - any decodable reply; the request-field clauses (NewASReq/NewTGSReq contents) are not covered in this revision.", "6 (C10)"),
+ "C11": ("Every pair of operations on one client ticket cache (15 pairs) and one TGT session (28 pairs), and two concurrent GetKDCs on a shared Config, executed under EVERY interleaving at lock/atomic granularity with vector-clock race detection on every access: no data race, no deadlock, and tgtDetails returns a (TGT, session key) pair that a single update wrote.",
+         BASE_NOTE + "Two goroutines, one operation each; longer concurrent histories and the auto-renewal goroutine timing are outside the bound. Weak-memory behaviours are represented only by reporting races.", "6 (C11)"),
+ "C12": ("Client.sendToKDC with n<=2 KDCs (thorough 3) and every combination of endpoint behaviours (each (KDC, transport) answers / refuses / closes silently / closes mid-reply) and every udp_preference_limit class: if some configured KDC answers on a transport the preference permits, the call succeeds with that KDC's complete reply; a truncated TCP reply is never returned as success; KRB-ERROR replies surface. KDC order is every outcome of math/rand.",
+         BASE_NOTE + "Sockets are scripted stubs (netstub); counterexamples are replayed natively against real loopback listeners. DNS SRV lookup not covered.", "6 (C12)"),
+ "C16": ("krb5.conf semantics kernels: ResolveRealm returns the most specific mapping for EVERY subset of candidate domain_realm entries and decoys for hostnames of depth 1..3 (thorough 5); GetKDCs/GetKpasswdServers return exactly the configured servers (kpasswd_server, else admin_server with port 464) under every math/rand outcome and never mutate the Config; parseBoolean accepts exactly the MIT spellings for EVERY string of 0..3 bytes (thorough 5); realm-block kdc/admin_server lines: port defaulting and final-value '*' handling for symbolic values.",
+         BASE_NOTE + "Whole-file parsing (sections, includes, libdefaults keys, durations) is outside the claim of this revision.", "6 (C16)"),
+ "C19": ("pac.PACType.ProcessPACInfoBuffers/verify on a PAC with all contents symbolic: accepted => the server signature equals the declared checksum type's RFC checksum (usage 17, service key) of the PAC with both signature fields zeroed; a correctly signed PAC is accepted; any change of signed bytes, signature, key or declared type is rejected (idealised MAC); a PAC lacking a mandatory buffer is rejected whatever it contains.",
+         BASE_NOTE + "NDR decoding of KerbValidationInfo etc. is a stub returning arbitrary structs (ndrhavoc). The KDC signature cannot be verified by a service (no krbtgt key) - not in the statement.", "6 (C19)"),
  "C05": ("For each of the six etypes and each registered plaintext length (quick: 0,1,7,8,9,15,16,17,31,32,33; thorough adds 47..130) the real EncryptMessage/DecryptMessage/GetEncryptedData code is executed symbolically with key, confounder (= what crypto/rand returned), plaintext and ALL non-zero 32-bit key usages symbolic and shown equal, byte for byte, to an RFC 3961/3962/8009/4757 reference model written over the same uninterpreted primitives; the library decrypts the reference's ciphertext for any confounder. One solver verdict covers all keys/usages/contents of a length; lengths are enumerated.",
          BASE_NOTE + "AES/DES/RC4/SHA/MD5/HMAC/PBKDF2 are uninterpreted functions (block ciphers with D(E(x))=x); n-fold and des3 random-to-key are summarised by one symbol on both sides here and proved against their RFC definitions under C08. The reference model is validated natively when counterexamples are replayed. Lengths not registered are outside the claim.", "6 (C05), 3.2"),
  "C06": ("General form, no adversary model: for EVERY byte string x of the length of an RFC ciphertext (plaintext lengths 0,1,15,16,17,33; thorough more), every key and non-zero usage, if DecryptMessage accepts x and returns p then x is exactly the RFC encryption of p. Constructive forms in the idealised-MAC model: every non-zero mask confined to the body, or to the tag, every other key, every other non-aliased usage is rejected; plus a history form (key buffer refilled in place between calls).",
@@ -30,6 +48,9 @@ CLAIMED = {
 }
 
 NOT_APPLICABLE = {
+ "C03": "check not registered yet in this revision: the SPNEGO HTTP wrapper needs net/http request/response stubs (planned as stub set httpstub); the AP-REQ acceptance it delegates to is covered by C01",
+ "C18": "check not registered yet in this revision: spnego.Client.Do drives net/http.Client; a scripted RoundTripper stub is planned",
+ "C20": "check not registered yet in this revision: needs a self-composition (two-secret) taint harness over fmt/json formatting, which the encoder does not execute symbolically",
 }
 for i in range(1, 21):
     pid = "C%02d" % i
